@@ -159,3 +159,31 @@ contract(f"{CR}::PythonCryptoEndpoint.process_cell", "process_cell.unknown-circu
                   "same_keys(self.relays, old(keys_snapshot(self.relays))) and same_keys(self.circuits, old(keys_snapshot(self.circuits)))"
                   " and same_keys(self.exit_sockets, old(keys_snapshot(self.exit_sockets)))"],
          note="a cell naming an unknown circuit changes nothing and triggers nothing")
+
+# ---------------------------------------------------------------------------------------------------------------------
+# end-to-end (hidden-service) circuits: one more layer under the hop layers, keyed between the two end points.  A cell that lacks
+# a valid e2e layer is dropped - the rendezvous point (which holds the hop keys only) can neither read nor forge such data.
+try:
+    from ipv8.messaging.anonymization.tunnel import CIRCUIT_TYPE_RP_DOWNLOADER, CIRCUIT_TYPE_RP_SEEDER  # noqa: F401
+except ImportError:
+    pass
+E2E_EP = OBJ(f"{CR}::PythonCryptoEndpoint", prefix=BYTES_FIXED(22), logger=LOGGER(), endpoint=EFFECT("raw", send={}),
+             settings=OBJ(f"{TC}::TunnelSettings", max_relay_early=INT),
+             circuits=EXPR("{circ.circuit_id: circ}"), relays=EXPR("{}"), exit_sockets=EXPR("{}"))
+E2E_VARS = {"hc1": HOP(), "hs": KEYS(), "circ": CIRCUIT("[hc1]", _hs_session_keys=EXPR("hs")), "self": E2E_EP,
+            "cell": CELL(plaintext=EXPR("False")), "m0": EXPR("cell.message")}
+_DIN = "(FORWARD if circ.ctype == CIRCUIT_TYPE_RP_DOWNLOADER else BACKWARD)"
+_DOUT = "(FORWARD if circ.ctype == CIRCUIT_TYPE_RP_SEEDER else BACKWARD)"
+_PEELED = "uf_bytes('aead_dec', hc1.keys.kid, BACKWARD, m0)"
+contract(f"{CR}::PythonCryptoEndpoint.incoming_crypto", "incoming_crypto.e2e-layer-required", vars=E2E_VARS,
+         requires=["cell.circuit_id == circ.circuit_id"], call="self.incoming_crypto(cell)", raises=[],
+         ensures=[f"result is None or (uf_bool('aead_ok', hc1.keys.kid, BACKWARD, m0) and uf_bool('aead_ok', hs.kid, {_DIN}, {_PEELED})"
+                  f" and result is cell and cell.message == uf_bytes('aead_dec', hs.kid, {_DIN}, {_PEELED}))",
+                  f"implies(not uf_bool('aead_ok', hs.kid, {_DIN}, {_PEELED}), result is None)",
+                  "implies(not uf_bool('aead_ok', hc1.keys.kid, BACKWARD, m0), result is None)"],
+         covers=["result is None", "result is not None"],
+         note="on an e2e circuit a cell is handed on only if BOTH the hop layer and the end-to-end layer authenticate")
+contract(f"{CR}::PythonCryptoEndpoint.outgoing_crypto", "outgoing_crypto.e2e-layer-innermost", vars=E2E_VARS,
+         requires=["cell.circuit_id == circ.circuit_id"], call="self.outgoing_crypto(cell)", raises=[],
+         ensures=[f"result is cell and cell.message == E(hc1, FORWARD, uf_bytes('aead_enc', hs.kid, {_DOUT}, m0))"],
+         note="data for an e2e circuit is first sealed for the other end point, then wrapped for the hops")
